@@ -877,6 +877,27 @@ func (in *input) nodeAt(id int64) (pt, bool) {
 	return p, found
 }
 
+// Wave 8: the keys the library documents as bookkeeping only (osm.UninterestingTags at the pinned
+// commit). This is the specification copy: it is NOT read from the library at run time, since a change
+// of the library's table must not move the expectation. Member ways and their nodes that carry only
+// such tags are skipped by Convert exactly like untagged ones, so a relation still gives ONE feature.
+var bookKeys = []string{"source", "source_ref", "source:ref", "history", "attribution", "created_by",
+	"tiger:county", "tiger:tlid", "tiger:upload_uuid"}
+
+// bookTags: deterministic (no rng, so the case streams of earlier waves keep their indexes): three of
+// four objects get one bookkeeping key, every third a second one, every key is used in turn.
+func bookTags(i, salt int) osm.Tags {
+	if i%4 == 3 {
+		return nil
+	}
+	n := len(bookKeys)
+	ts := osm.Tags{{Key: bookKeys[(i+salt)%n], Value: fmt.Sprintf("import %d", i)}}
+	if i%3 == 0 {
+		ts = append(ts, osm.Tag{Key: bookKeys[(i+salt+4)%n], Value: "x"})
+	}
+	return ts
+}
+
 // build the osm objects for one run. src 0: node objects only; 1: annotated way nodes only; 2: both.
 func (in *input) rid() int64 {
 	if in.relID == 0 && !in.relZero {
@@ -889,13 +910,14 @@ func (in *input) build(src int, orients []int64, mask ...bool) *osm.OSM {
 	k := 0
 	o := &osm.OSM{}
 	if src != 1 {
-		for _, n := range in.nodes {
+		for j, n := range in.nodes {
 			f := in.e.pt(n.p)
-			o.Nodes = append(o.Nodes, &osm.Node{ID: osm.NodeID(n.id), Lon: f[0], Lat: f[1], Version: 1, Visible: true})
+			o.Nodes = append(o.Nodes, &osm.Node{ID: osm.NodeID(n.id), Lon: f[0], Lat: f[1], Version: 1, Visible: true,
+				Tags: bookTags(j, len(in.ways))})
 		}
 	}
-	for _, w := range in.ways {
-		way := &osm.Way{ID: osm.WayID(w.id), Version: 1, Visible: true, ChangesetID: 10}
+	for i, w := range in.ways {
+		way := &osm.Way{ID: osm.WayID(w.id), Version: 1, Visible: true, ChangesetID: 10, Tags: bookTags(i, len(in.nodes))}
 		for _, id := range w.nodes {
 			wn := osm.WayNode{ID: osm.NodeID(id)}
 			ann := src == 1 || src == 2 || (src == 3 && k < len(mask) && mask[k])
